@@ -9,7 +9,7 @@ RULE = ('grammar-directed valid RFC 8259 texts through all entry points (exact-l
         '62-66 character numbers, nesting 998-1002 and 10^5; non-trivial = distinct input with at least 2 bytes that reaches the value parser')
 ASSUMPTIONS = ['C locale', 'hand-written transliteration validated by this differential run', 'strtod contract: consumes a non-empty prefix of its zero-terminated argument']
 
-def corpus(ctx): return load_corpus(ctx['verif'], 'C01')
+def corpus(ctx): return G.parse_corpus(ctx, 'C01', None)
 def generate(ctx): return G.all_streams(ctx, 1)
 def project(c, out): return G.project_fields(out, ['live', 'reqs'])
 
